@@ -281,6 +281,14 @@ func (m *Model) evalFilter(f *Filter, key string, L []MCell, env *fenv) ([]MCell
 		}
 		return out
 	}
+	if len(L) == 0 {
+		switch f.Kind {
+		case "fam_re", "qual_re", "val_re", "ts_range", "col_range", "val_range", "strip", "label":
+			// cell-level filters have nothing to evaluate on an empty list: an invalid argument is
+			// not "reached" (the caller reports such cases as ambiguous via StaticInvalid)
+			return nil, nil
+		}
+	}
 	switch f.Kind {
 	case "pass":
 		if !f.B {
